@@ -9,7 +9,10 @@ SPEC = {
         "Deciding step is BOUNDED: normalize(canonicalize(u)) == normalize(u) and fingerprint(canonicalize(u)) == fingerprint(u) on the URL "
         "grammar x (platform_aware, strip_suffix, quoted), and every collision class (inputs grouped by canonical form, then by normalized form) "
         "must be constant under the next scheme. Deductive part: the EUF lemma that the composition equalities imply the pairwise claim for "
-        "canonical collisions (so only the second pairwise claim, same normalized => same fingerprint, rests on collision classes alone). "
+        "canonical collisions (so only the second pairwise claim, same normalized => same fingerprint, rests on collision classes alone); and two structural obligations read off the "
+        "AST of the tree on every run: normalize_url cleans its argument with the steps of canonicalize_url in the same order (control characters, strip, hex case of "
+        "escapes - applied before anything else is looked at, nested or as successive assignments), and fingerprint_url's lowercase_url drops control characters "
+        "before it reads escapes or letter case; a prologue this reader does not recognise generates no obligation (undecided, never a violation). "
         "The composition equalities themselves are string-to-string relations through regex / urlsplit code: not decidable by the available back ends."),
     "assumptions": ["same option settings on both sides of every comparison", "parseable = urlsplit accepts the cleaned string and the host is non-empty"],
     "trusted_base": ["bcheck/urlref.py parseability filter", "z3 for the lemma"],
